@@ -207,3 +207,13 @@ Theorem S_optimise_state_is_the_source_pieces :
 Proof. exact optimise_state_is_the_source_pieces. Qed.
 Print Assumptions S_optimise_state_is_the_source_pieces.
 
+
+Theorem C20_source_convergence_prefix :
+  forall (NN : Num) (fexp : carrier NN -> carrier NN) (score : N -> list (carrier NN) -> option
+    (carrier NN)) (c : cfg NN) (eps : carrier NN) (draws : list (draw NN)), conv NN c = Some eps
+    -> forall a b : ost NN, agree NN a b -> conv_fin NN a -> converged NN (fold_left
+    (src_advance NN fexp score c) draws a) = false -> agree NN (fold_left (src_advance NN fexp
+    score c) draws a) (fold_left (src_advance NN fexp score (no_conv NN c)) draws b).
+Proof. exact source_convergence_prefix. Qed.
+Print Assumptions C20_source_convergence_prefix.
+
